@@ -44,7 +44,11 @@ enum Client {
 #[derive(Clone, Debug)]
 struct Scn {
     mode: HandlerTaskMode,
-    inflight: Vec<(Release, Client)>,
+    /// (when the gate opens, what the client does, handler drops its RequestContext early)
+    inflight: Vec<(Release, Client, bool)>,
+    /// after a client left, wait until the server has noticed (its
+    /// "request handling cancelled (client disconnected)" log record) before going on
+    wait_noticed: bool,
     idle_keepalive: usize,
     idle_fresh: usize,
     half_sent: bool,
@@ -58,14 +62,15 @@ impl Scn {
         } else {
             self.inflight
                 .iter()
-                .map(|(r, c)| {
+                .map(|(r, c, d)| {
                     format!(
-                        "{}{}",
+                        "{}{}{}",
                         match r {
                             Release::BeforeDone => "bd",
                             Release::Before => "b",
                             Release::After => "a",
                         },
+                        if *d { "!" } else { "" },
                         match c {
                             Client::Stays => "S".to_string(),
                             Client::Leaves(h) => format!("L{}", h.name()),
@@ -76,8 +81,9 @@ impl Scn {
                 .join("+")
         };
         format!(
-            "inflight={},idle={}/{},half={},waiters={}/{}/{}",
+            "inflight={},noticed={},idle={}/{},half={},waiters={}/{}/{}",
             inf,
+            self.wait_noticed as u8,
             self.idle_keepalive,
             self.idle_fresh,
             self.half_sent as u8,
@@ -162,11 +168,13 @@ fn run_scenario(rt: &Arc<tokio::runtime::Runtime>, id: &str, sc: &Scn) -> String
             staying.push((s, c, None));
         }
     }
-    for (rel, cl) in &sc.inflight {
+    let mut n_left = 0usize;
+    for (rel, cl, dropctx) in &sc.inflight {
         c += 1;
         let r = 10 * c;
         let Some(mut s) = open(addr) else { late += 1; continue };
-        let _ = send_logged(&ctx, &mut s, &get(&format!("/w/{}", r)), Ev::ReqSent(c, r));
+        let path = if *dropctx { format!("/wd/{}", r) } else { format!("/w/{}", r) };
+        let _ = send_logged(&ctx, &mut s, &get(&path), Ev::ReqSent(c, r));
         if !ctx.wait_for(&Ev::Start(r), DEADLINE) {
             late += 1;
         }
@@ -183,6 +191,20 @@ fn run_scenario(rt: &Arc<tokio::runtime::Runtime>, id: &str, sc: &Scn) -> String
                 }
                 if sc.mode == HandlerTaskMode::CancelOnDisconnect && !ctx.wait_for(&Ev::Drop(r), DEADLINE) {
                     late += 1;
+                }
+                n_left += 1;
+                if sc.wait_noticed {
+                    // The server has noticed: hyper dropped the service future
+                    // (its scopeguard logged the cancellation), so the connection
+                    // task and everything it owned are gone; only the handler
+                    // (detached mode) is left.  And a fresh connection is served.
+                    let noticed = ctx.noticed.clone();
+                    if !wait_until(DEADLINE, || noticed.load(Ordering::SeqCst) >= n_left) {
+                        late += 1;
+                    }
+                    if !health(addr) {
+                        late += 1;
+                    }
                 }
             }
         }
@@ -258,7 +280,9 @@ fn run_scenario(rt: &Arc<tokio::runtime::Runtime>, id: &str, sc: &Scn) -> String
     }
 
     // ---- D. close returned -------------------------------------------------------
-    let close_deadline = if sc.half_sent { Duration::from_secs(70) } else { Duration::from_secs(40) };
+    // a half-sent request is bounded by hyper's 30 s header-read timeout:
+    // close() must be back within 45 s (else: class half-sent-hang, a spec failure)
+    let close_deadline = if sc.half_sent { Duration::from_secs(45) } else { Duration::from_secs(40) };
     let closed = rt.block_on(async {
         match tokio::time::timeout(close_deadline, close_task).await {
             Ok(Ok(Ok(()))) => "ok",
@@ -360,7 +384,7 @@ fn main() {
         k += 1;
         v.push((format!("{}{}", tag, k), s));
     };
-    let base = |mode| Scn { mode, inflight: vec![], idle_keepalive: 0, idle_fresh: 0, half_sent: false, waiters: [1, 1, 1] };
+    let base = |mode| Scn { mode, inflight: vec![], wait_noticed: false, idle_keepalive: 0, idle_fresh: 0, half_sent: false, waiters: [1, 1, 1] };
     // 1. systematic
     for &m in &modes {
         // nothing in flight
@@ -369,16 +393,21 @@ fn main() {
         add(&mut scenarios, "s", Scn { idle_keepalive: 2, idle_fresh: 2, ..base(m) });
         // one handler, every release moment x client present / gone
         for rel in [Release::BeforeDone, Release::Before, Release::After] {
-            add(&mut scenarios, "s", Scn { inflight: vec![(rel, Client::Stays)], ..base(m) });
-            add(&mut scenarios, "s", Scn { inflight: vec![(rel, Client::Stays)], idle_keepalive: 1, idle_fresh: 1, waiters: [2, 2, 2], ..base(m) });
+            add(&mut scenarios, "s", Scn { inflight: vec![(rel, Client::Stays, false)], ..base(m) });
+            add(&mut scenarios, "s", Scn { inflight: vec![(rel, Client::Stays, false)], idle_keepalive: 1, idle_fresh: 1, waiters: [2, 2, 2], ..base(m) });
             for h in How::ALL {
-                add(&mut scenarios, "s", Scn { inflight: vec![(rel, Client::Leaves(h))], ..base(m) });
+                add(&mut scenarios, "s", Scn { inflight: vec![(rel, Client::Leaves(h), false)], ..base(m) });
+                // the handler drops its RequestContext early; close() is requested only
+                // after the server has noticed that the client is gone
+                add(&mut scenarios, "s", Scn { inflight: vec![(rel, Client::Leaves(h), true)], wait_noticed: true, ..base(m) });
+                add(&mut scenarios, "s", Scn { inflight: vec![(rel, Client::Leaves(h), false)], wait_noticed: true, ..base(m) });
             }
             add(
                 &mut scenarios,
                 "s",
                 Scn {
-                    inflight: vec![(rel, Client::Stays), (rel, Client::Leaves(How::Rst)), (Release::After, Client::Stays), (Release::After, Client::Leaves(How::Fin))],
+                    inflight: vec![(rel, Client::Stays, false), (rel, Client::Leaves(How::Rst), false), (Release::After, Client::Stays, true), (Release::After, Client::Leaves(How::Fin), true), (Release::After, Client::Leaves(How::Close), false)],
+                    wait_noticed: true,
                     idle_keepalive: 1,
                     waiters: [1, 2, 1],
                     ..base(m)
@@ -399,7 +428,7 @@ fn main() {
             .map(|_| {
                 let rel = *rng.pick(&[Release::BeforeDone, Release::Before, Release::After, Release::After]);
                 let cl = if rng.chance(1, 2) { Client::Stays } else { Client::Leaves(*rng.pick(&How::ALL)) };
-                (rel, cl)
+                (rel, cl, rng.chance(1, 3))
             })
             .collect();
         add(
@@ -408,6 +437,7 @@ fn main() {
             Scn {
                 mode: m,
                 inflight,
+                wait_noticed: rng.chance(1, 2),
                 idle_keepalive: rng.below(4) as usize,
                 idle_fresh: rng.below(3) as usize,
                 half_sent: false,
@@ -415,11 +445,15 @@ fn main() {
             },
         );
     }
-    // 3. half-sent request: bounded by hyper's 30 s header-read timeout (thorough only)
-    if is_thorough() {
-        for &m in &modes {
-            add(&mut scenarios, "h", Scn { half_sent: true, inflight: vec![(Release::After, Client::Stays)], ..base(m) });
-        }
+    // 3. half-sent request (incomplete head, client stays connected and silent):
+    //    close() is bounded by hyper's 30 s header-read timeout.  One scenario per
+    //    mode, each on its own thread concurrently with everything else, so the
+    //    run costs max(~31 s, rest).
+    let mut half_threads = Vec::new();
+    for (i, &m) in modes.iter().enumerate() {
+        let rt = rt.clone();
+        let sc = Scn { half_sent: true, inflight: vec![(Release::After, Client::Stays, false)], ..base(m) };
+        half_threads.push(std::thread::spawn(move || run_scenario(&rt, &format!("half{}", i + 1), &sc)));
     }
 
     let total = scenarios.len();
@@ -445,6 +479,9 @@ fn main() {
     let mut out = std::io::BufWriter::new(std::io::stdout());
     for l in results.lock().unwrap().iter() {
         writeln!(out, "{}", l.as_ref().expect("scenario ran")).unwrap();
+    }
+    for t in half_threads {
+        writeln!(out, "{}", t.join().expect("half-sent scenario ran")).unwrap();
     }
     out.flush().unwrap();
 }
